@@ -395,6 +395,27 @@ def run_shard(ctx, spec):
             ctx.count('eval.fresh-sequence-crosscheck')
             if [tuple(x) for x in out] != got:
                 ctx.violation('harness:in-process-reset-not-faithful', {'seq': s[:10]}, out[:10], got[:10])
+    if spec['i'] % 8 == 1:
+        # validator classes built at run time (jsonschema.validators.extend of a draft, nothing changed: it validates exactly like
+        # its base), used once and dropped: the next class may live at the same address - whatever the answers are remembered
+        # under must keep the class alive or tell the classes apart some other way
+        import contextlib
+        import gc
+        import io
+        from jsonschema import validators as _jv
+        mon.reset()
+        files = sorted(set(c[1] for c in S if c[1].startswith('json/')))
+        for rnd_no in range(12 if ctx.tier == 'quick' else 60):
+            for fi, sf in enumerate(files):
+                base = VALIDATORS[(fi + rnd_no) % len(VALIDATORS)]
+                cls = _jv.extend(getattr(mon.js, base), {})
+                cls.__name__ = base            # the recorder looks the answer up under the base draft's name
+                with contextlib.redirect_stdout(io.StringIO()):
+                    attach.call(mon.u.schema_valid, sf, cls, bool((fi + rnd_no) % 5 == 0))
+                ctx.count('eval.run-time-built-validator-class')
+                del cls
+                if fi % 3 == 0:
+                    gc.collect()
     if mon.net:
         ctx.violation('offline:network-access-while-resolving-refs', {'events': mon.net[:5]}, 'no network access', mon.net[:5])
     ctx.require('judged.call-on-warm-key', 50)
